@@ -93,3 +93,16 @@ Example C05_nonvacuous :
   dec_round release RUp (mkdec 1 18) (-21) = Val (mkdec (10 ^ 21) 0) /\
   dec_checked_round dev RHalfUp (mkdec MAXC 0) (-3) = Val None.
 Proof. vm_compute. repeat split. Qed.
+
+(* ---- the same kernel facts about the functions translated from /repo's current source (gen/GenCore.v,
+   regenerated by tools/rs2v.py on every run; tie lemmas in proofs/GenTie*.v) ---- *)
+From FP Require Import GenCore GenTieRound.
+
+Theorem C05_source_kernel :
+  forall pf dflt om n d, - MAXC <= n <= MAXC -> - MAXC <= d <= MAXC -> d <> 0 ->
+    g_i128_div_rounded pf dflt n d om = Val (rndq (or_default dflt om) n d).
+Proof. exact src_div_rounded. Qed.
+Check C05_source_kernel :
+  forall pf dflt om n d, - MAXC <= n <= MAXC -> - MAXC <= d <= MAXC -> d <> 0 ->
+    g_i128_div_rounded pf dflt n d om = Val (rndq (or_default dflt om) n d).
+Print Assumptions C05_source_kernel.
